@@ -2,6 +2,7 @@ import ZCV.Lemmas.NoInternalLoader
 import ZCV.Lemmas.NoInternalLower
 import ZCV.Lemmas.NoInternalSchemaless
 import ZCV.Lemmas.NoInternalExamples
+import ZCV.Lemmas.Validator
 /-!
 # C07 — user input can only produce configuration errors, never internal exceptions
 
@@ -251,5 +252,119 @@ theorem C07_parser_no_internal {σ} (c : PCtx σ) (Inv : Nat → σ → Prop) (h
 /-- the two contexts of the library satisfy the hypothesis on the callbacks -/
 example : CtxOK loaderCtx LSInv := loaderCtx_ok lower_idem
 example : CtxOK schemalessCtx SLInv := schemalessCtx_ok
+
+/-! ### the validator command (`ZConfig/validator.py`), given a loadable schema -/
+
+section ValidatorCmd
+open ZCV.Validator
+
+/-- THE CONSEQUENCE stated in the property, for the loop of `validator.main`: if no load lets anything but a configuration
+    error out, the command ends (no exception escapes) with status 0 when every file is valid and 1 otherwise, having printed
+    exactly one message per invalid file, in file order. -/
+theorem C07_validator_exit (files : List Outcome) (hf : ∀ o ∈ files, isInternal o = false) :
+    run files = .exit (if files.any isInvalid then 1 else 0) (files.filterMap msgOf) ∧
+    (files.filterMap msgOf).length = files.countP isInvalid := by
+  refine ⟨?_, filterMap_msgOf_length files⟩
+  have := loop_spec files hf false []
+  simpa [run] using this
+
+/-- status 0 ⇔ all files valid -/
+theorem C07_validator_status_zero_iff (files : List Outcome) (hf : ∀ o ∈ files, isInternal o = false) :
+    run files = .exit 0 [] ↔ ∀ o ∈ files, o = .valid := by
+  rw [(C07_validator_exit files hf).1]
+  constructor
+  · intro h o ho
+    cases o with
+    | valid => rfl
+    | cfgError m =>
+      have : files.any isInvalid = true := List.any_eq_true.mpr ⟨_, ho, rfl⟩
+      simp [this] at h
+    | internal e => have := hf _ ho; simp [isInternal] at this
+  · intro h
+    have h1 : files.any isInvalid = false := by
+      rw [List.any_eq_false]; intro o ho; rw [h o ho]; simp [isInvalid]
+    have h2 : files.filterMap msgOf = [] := by
+      rw [List.filterMap_eq_nil_iff]; intro o ho; rw [h o ho]; rfl
+    simp [h1, h2]
+
+/-- conversely the loop protects nothing else: the first non-configuration exception ends the command there -/
+theorem C07_validator_escape (pre : List Outcome) (hpre : ∀ o ∈ pre, isInternal o = false) (e : Str) (post : List Outcome) :
+    run (pre ++ .internal e :: post) = .escaped e (pre.filterMap msgOf) := by
+  have := loop_escapes pre hpre e post false []
+  simpa [run] using this
+
+/-- with the loader model in the loop: for a well-formed schema and datatypes that fail only with ValueError
+    (`hdt`: no load ends in an exception of a datatype function — the exception the property makes), whatever the texts are,
+    the validator ends with status 0 or 1 and one message per rejected text. -/
+theorem C07_validator_on_loads (conv : Conv) (env : Env) (pkgs : Str → Pkg) (s : Schema) (render : Err → Str)
+    (texts : List (Option Str × List Str)) (urls : List Str)
+    (hs : schemaWF s = true) (hp : ∀ p, pkgWF (pkgs p) = true) (henv : EnvOK env urls) (hlen : urls.length ≤ 64)
+    (hdt : ∀ t ∈ texts, ∀ n, load conv env pkgs s t.1 t.2 [] ≠ .error (.dtExc n)) :
+    let outs := texts.map fun t => outcomeOf render (load conv env pkgs s t.1 t.2 [])
+    ∃ status msgs, run outs = .exit status msgs ∧ (status = 0 ∨ status = 1) ∧
+      (status = 0 ↔ ∀ t ∈ texts, ∃ r, load conv env pkgs s t.1 t.2 [] = .ok r) ∧
+      msgs.length = (texts.filter fun t => !(load conv env pkgs s t.1 t.2 []).toBool).length := by
+  intro outs
+  have hf : ∀ o ∈ outs, isInternal o = false := by
+    intro o ho
+    obtain ⟨t, ht, rfl⟩ := List.mem_map.mp ho
+    have hni := C07_no_internal conv env pkgs s t.1 t.2 [] urls hs hp henv hlen
+    cases hl : load conv env pkgs s t.1 t.2 [] with
+    | ok r => rfl
+    | error f =>
+      cases f with
+      | cfg e => rfl
+      | dtExc n => exact absurd hl (hdt t ht n)
+      | internal x => exact absurd hl (hni x)
+  obtain ⟨hrun, hlen'⟩ := C07_validator_exit outs hf
+  refine ⟨_, _, hrun, ?_, ?_, ?_⟩
+  · by_cases h : outs.any isInvalid = true <;> simp [h]
+  · have hinv : ∀ t : Option Str × List Str,
+        isInvalid (outcomeOf render (load conv env pkgs s t.1 t.2 [])) = true →
+        ¬ ∃ r, load conv env pkgs s t.1 t.2 [] = .ok r := by
+      intro t h ⟨r, hr⟩; rw [hr] at h; simp [outcomeOf, isInvalid] at h
+    constructor
+    · intro h t ht
+      by_cases ha : outs.any isInvalid = true
+      · simp [ha] at h
+      · cases hl : load conv env pkgs s t.1 t.2 [] with
+        | ok r => exact ⟨r, rfl⟩
+        | error f =>
+          exfalso
+          have hni := C07_no_internal conv env pkgs s t.1 t.2 [] urls hs hp henv hlen
+          cases f with
+          | cfg e =>
+            apply ha
+            exact List.any_eq_true.mpr ⟨_, List.mem_map.mpr ⟨t, ht, rfl⟩, by rw [hl]; rfl⟩
+          | dtExc n => exact hdt t ht n hl
+          | internal x => exact hni x hl
+    · intro h
+      have : outs.any isInvalid = false := by
+        rw [List.any_eq_false]
+        intro o ho
+        obtain ⟨t, ht, rfl⟩ := List.mem_map.mp ho
+        obtain ⟨r, hr⟩ := h t ht
+        rw [hr]; simp [outcomeOf, isInvalid]
+      simp [this]
+  · rw [hlen']
+    show (texts.map _).countP isInvalid = _
+    rw [List.countP_map, List.countP_eq_length_filter]
+    congr 1
+    apply List.filter_congr
+    intro t ht
+    have hni := C07_no_internal conv env pkgs s t.1 t.2 [] urls hs hp henv hlen
+    cases hl : load conv env pkgs s t.1 t.2 [] with
+    | ok r => simp [hl, outcomeOf, isInvalid, Except.toBool]
+    | error f =>
+      cases f with
+      | cfg e => simp [hl, outcomeOf, isInvalid, Except.toBool]
+      | dtExc n => exact absurd hl (hdt t ht n)
+      | internal x => exact absurd hl (hni x)
+
+example : run [.valid, .cfgError "m1".toList, .valid, .cfgError "m2".toList] = .exit 1 ["m1".toList, "m2".toList] := by decide
+example : run [.valid, .valid] = .exit 0 [] := by decide
+example : run [.cfgError "m".toList, .internal "KeyError".toList, .cfgError "n".toList] = .escaped "KeyError".toList ["m".toList] := by decide
+
+end ValidatorCmd
 
 end ZCV.Props.C07
